@@ -164,31 +164,44 @@ def check(code_a, code_b, layout, nenum, cls_enum, fshape, ignore_which):
     return True
 
 
-def c10_census(a: int, b: int, layout: int, nenum: int, cls_enum: int, fshape: int, ign: int) -> bool:
-    """
-    Files (classdefs, function files, enum classdefs in their +package folders, one MEX source), classdef
-    contents, enumerator numbering and MEX preamble (collectors, RTTI, delete-all) for two classes in 7
-    namespace layouts (incl. same-leaf namespaces and a re-opened namespace), with enums and an ignore entry.
-    pre: 0 <= a < NREP and 0 <= b < NREP and 0 <= layout < NL and 0 <= nenum <= 2 and 0 <= cls_enum <= 1 and 0 <= fshape < 4 and 0 <= ign <= 2
-    post: _
-    """
-    a, b, layout = pick(a, 0, NREP), pick(b, 0, NREP), pick(layout, 0, NL)
-    nenum, cls_enum, fshape, ign = (a + layout) % 3, (a + b) % 2, (b + layout) % 4, (a + b + layout) % 3
-    if THOROUGH:
-        ign = pick(ign, 0, 3)
+BREPS = [1, 5, 8, 11]
+
+
+def _census(a, b, layout, ign, parity):
+    a, b = pick(a, 0, NREP), pick(b, 0, NREP if THOROUGH else len(BREPS))
+    layout = pick(layout, 0, 4 if parity == 0 else 3) * 2 + parity
+    if not THOROUGH:
+        b = BREPS[b]
+    nenum, cls_enum, fshape = (a + layout) % 3, (a + b) % 2, (b + layout) % 4
+    ign = pick(ign, 0, 3) if THOROUGH else (a + b + layout) % 3
     with concrete():
         ok = check(REPS[a], REPS[b], layout, nenum, cls_enum, fshape, ign)
-    reached({"a": REPS[a], "b": REPS[b], "layout": layout} if (not ok or (a == 4 and b == 7)) else None)
+    reached({"a": REPS[a], "b": REPS[b], "layout": layout} if (not ok or (a == 4 and b == 8)) else None)
     return ok
 
 
-def c10_all_classes(code: int, layout: int) -> bool:
+def c10_census_even(a: int, b: int, layout: int, ign: int) -> bool:
     """
-    Every class shape once, in every layout.
-    pre: 0 <= code < NC and 0 <= layout < NL
+    Files (classdefs, function files, enum classdefs in their +package folders, one MEX source), classdef
+    contents, enumerator numbering and MEX preamble (collectors, RTTI, delete-all) for two classes in the
+    namespace layouts 0, 2, 4, 6 (global, nested, two unrelated namespaces, deep + global), with enums and an ignore entry.
+    pre: 0 <= a < NREP and 0 <= b < NREP and 0 <= layout < 4 and 0 <= ign <= 2
     post: _
     """
-    code = pick(code, 0, NC)
+    return _census(a, b, layout, ign, 0)
+
+
+def c10_census_odd(a: int, b: int, layout: int, ign: int) -> bool:
+    """
+    As c10_census_even for layouts 1, 3, 5 (one namespace, two namespaces with the SAME leaf name, a re-opened namespace).
+    pre: 0 <= a < NREP and 0 <= b < NREP and 0 <= layout < 3 and 0 <= ign <= 2
+    post: _
+    """
+    return _census(a, b, layout, ign, 1)
+
+
+def _all_classes(code, layout, lo):
+    code = pick(code, lo, lo + NC // 2)
     layout = (code + pick(layout, 0, 2)) % NL if THOROUGH else code % NL
     with concrete():
         ok = check(code, REPS[code % NREP], layout, code % 3, code % 2, code % 4, (code // 3) % 3)
@@ -196,13 +209,32 @@ def c10_all_classes(code: int, layout: int) -> bool:
     return ok
 
 
+def c10_all_classes_lo(code: int, layout: int) -> bool:
+    """
+    Every class shape once (first half of the shape codes).
+    pre: 0 <= code < NC // 2 and 0 <= layout < 2
+    post: _
+    """
+    return _all_classes(code, layout, 0)
+
+
+def c10_all_classes_hi(code: int, layout: int) -> bool:
+    """
+    Every class shape once (second half of the shape codes).
+    pre: NC // 2 <= code < NC and 0 <= layout < 2
+    post: _
+    """
+    return _all_classes(code, layout, NC // 2)
+
+
 def conds(tier):
     q = tier == "quick"
     t = (lambda x, y: x) if q else (lambda x, y: y)
     M = "harness.c10"
+    bc = "%d first classes x %s second classes x %%s%s" % (NREP, "%d representative" % len(BREPS) if q else "%d" % NREP, "" if q else " x 3 ignore choices")
     return [
-        xh.Cond(M, "c10_census", t(420, 3600), kind="shape-bounded", path_timeout=90, examples=["a=4, b=7, layout=3, nenum=1, cls_enum=1, fshape=2, ign=2", "a=11, b=2, layout=5, nenum=1, cls_enum=1, fshape=1, ign=0"],
-                bounds="%d x %d representative class pairs x %d namespace layouts%s" % (NREP, NREP, NL, "" if q else " x enums x class enum x 4 function shapes x 3 ignore choices")),
-        xh.Cond(M, "c10_all_classes", t(420, 3600), kind="shape-bounded", path_timeout=90, examples=["code=101, layout=3"],
-                bounds="all %d class shapes%s" % (NC, " x %d layouts" % NL if not q else " (layout derived)")),
+        xh.Cond(M, "c10_census_even", t(420, 3600), kind="shape-bounded", path_timeout=90, examples=["a=4, b=2, layout=1, ign=2", "a=11, b=0, layout=3, ign=0"], bounds=bc % "layouts 0,2,4,6"),
+        xh.Cond(M, "c10_census_odd", t(420, 3600), kind="shape-bounded", path_timeout=90, examples=["a=4, b=2, layout=1, ign=2", "a=0, b=1, layout=2, ign=1"], bounds=bc % "layouts 1,3,5 (same-leaf namespaces, re-opened namespace)"),
+        xh.Cond(M, "c10_all_classes_lo", t(420, 3600), kind="shape-bounded", path_timeout=90, examples=["code=101, layout=0"], bounds="class shapes 0-%d%s" % (NC // 2 - 1, " x 2 layouts" if not q else " (layout derived)")),
+        xh.Cond(M, "c10_all_classes_hi", t(420, 3600), kind="shape-bounded", path_timeout=90, examples=["code=383, layout=1"], bounds="class shapes %d-%d%s" % (NC // 2, NC - 1, " x 2 layouts" if not q else " (layout derived)")),
     ]
